@@ -105,7 +105,9 @@ func (m *poolMonitor) get(p hessian.Pool, g int) (interface{}, poolEvent) {
 	o := p.Get()
 	ev.Ret = atomic.AddInt64(&m.seq, 1)
 	ev.Obj = objID(o)
-	_, loaded := m.seen.LoadOrStore(ev.Obj, struct{}{})
+	// the object itself is stored: every object ever handed out stays reachable, so the
+	// allocator cannot re-use its address for a later object (identity = pointer stays sound)
+	_, loaded := m.seen.LoadOrStore(ev.Obj, o)
 	ev.Fresh = !loaded
 	fl, _ := m.owners.LoadOrStore(ev.Obj, new(int32))
 	if !atomic.CompareAndSwapInt32(fl.(*int32), 0, 1) {
